@@ -75,7 +75,7 @@ def visFail (kind : String) (h : List HOp) : Option String :=
 
 def overlaps (a b : Rec) : Bool := decide (a.inv < b.resp) && decide (b.inv < a.resp)
 
-/-- the allowed-error rule; returns (violations, known D15 count) -/
+/-- the allowed-error rule; returns (violations, 0) -/
 def judgeErrors (kind : String) (rs : List Rec) : List String × Nat :=
   let closeInv : Option Nat := (rs.find? (·.op == "close")).map (·.inv)
   let closedOK (r : Rec) : Bool := match closeInv with
@@ -88,10 +88,9 @@ def judgeErrors (kind : String) (rs : List Rec) : List String × Nat :=
     else match r.op with
     | "add" =>
       if r.out == "ok" then acc
-      else if r.out == "frozen" && kind == "store" then
-        -- known finding D15: trigger = another add / rotation overlaps this add in time
-        if rs.any fun o => (o.op == "add" || o.op == "rotate") && (o.g != r.g || o.inv != r.inv) && overlaps o r
-        then (acc.1, acc.2 + 1) else fail "frozen-without-concurrent-rotation"
+      else if r.out == "frozen" then
+        -- since 22d1a03 the queue lock covers pick, frozen check and write: no add may fail so
+        fail "add-failed-memtable-is-frozen"
       else fail "spurious-error"
     | "remove" =>
       if kind == "store" || kind == "bm25" || kind == "meta" then
@@ -140,7 +139,7 @@ def judge (st : St) : String :=
           let ne := searches.any fun s => !s.res.isEmpty
           let flags := s!"ops={rs.length} searches={searches.length} autoids={st.autoIds.length} " ++
             s!"overlap_sw={if ov then 1 else 0} overlap_ww={if ovw then 1 else 0} removed={if rem then 1 else 0} nonempty={if ne then 1 else 0}"
-          if known > 0 then s!"KNOWN D15-memtable-add-after-unlock frozen={known} {flags}" else s!"ok {flags}"
+          if known > 0 then s!"SPECFAIL no_spurious_error frozen={known}" else s!"ok {flags}"
 
 def parseRes (s : String) : Option (List Nat) := parseIds s
 
@@ -183,11 +182,33 @@ end Comet.Driver.ConcStream
 namespace Comet.Driver.SchedStream
 open Comet Comet.Driver Comet.Conc.Rot
 
-/-- directed schedules of the rotation protocol, replayed on `Comet.Conc.Rot` -/
+/-!
+  Directed schedules of the store's add / rotate / flush protocol on the real store (one
+  72-byte document per 100-byte memtable, so an add rotates iff the mutable memtable is not
+  empty), replayed on `Comet.Conc.Rot` with the locked add (`rstep true`).
+
+    add t d            a complete AddWithID
+    hold t d           an adder is stopped at the yield point after memtable.addWithID's frozen
+                       check — since 22d1a03 INSIDE the queue-locked region
+    spawn rotate|flush|add d   started while the adder is held: must stay BLOCKED (the queue lock
+                       covers pick, frozen check and write); `completed` = the lock does not
+                       cover the write (the former shape, D15) → SPECFAIL
+    release t          the held add finishes, then the spawned operations run in some order:
+                       the model keeps every order as a candidate state
+    fsnap / fwrite / fdrop f   one flusher stepped through flushMemtables:next / :flushed
+    rotate, flush      complete operations
+    state              the store's bookkeeping (documents per queue memtable, documents counted
+                       in segments) must equal one candidate; every acknowledged document must
+                       be visible (add_never_fails_or_lost)
+-/
+
+inductive Spawned | rotate | flush | add (d : Nat)
+  deriving Repr, DecidableEq
+
 structure St where
-  s : RSt := {}
-  acts : List RAct := []
-  known : Nat := 0
+  cands : List RSt := [{}]
+  holder : Option (Nat × Nat) := none
+  spawned : List Spawned := []
 
 def init (ps : List String) : Option St :=
   match ps with
@@ -202,55 +223,168 @@ def showState (s : RSt) : String :=
   let q := ";".intercalate (s.frozenQ.map fun m => showDocs ((docsOf s m).mergeSort (· ≤ ·)))
   s!"q={if s.frozenQ.isEmpty then "-" else q}|mut={showDocs ((docsOf s s.mutable).mergeSort (· ≤ ·))}|seg={s.segments.length}"
 
-def stepAll (st : St) (as : List RAct) : St :=
-  { st with s := as.foldl rstep st.s, acts := st.acts ++ as }
+/-- one-document memtables: an add rotates iff the mutable memtable already holds a document -/
+def addM (t d : Nat) (s : RSt) : RSt := rstep true s (.pick t d (!(docsOf s s.mutable).isEmpty))
+
+/-- a complete flushMemtables() by a fresh flusher -/
+def flushM (s : RSt) : RSt :=
+  let f := 1000 + s.segments.length + s.snaps.length
+  let s1 := rstep true s (.flushSnap f)
+  let n := s.frozenQ.length
+  let s2 := (List.range n).foldl (fun s _ => rstep true (rstep true s (.flushWrite f)) (.flushDrop f)) s1
+  rstep true s2 (.flushWrite f)
+
+/-- an operation that was started while an adder was held, as a little thread of regions -/
+inductive Thr
+  | rot
+  | add (d : Nat)
+  | fl (f : Nat) (started : Bool)
+  deriving Repr, DecidableEq
+
+def snapRest (s : RSt) (f : Nat) : Option (List Nat) := (s.snaps.find? (·.1 == f)).map (·.2)
+
+/-- one region of such a thread; `none` = the operation returned -/
+def thrStep (s : RSt) : Thr → RSt × Option Thr
+  | .rot => (rstep true s .rotate, none)
+  | .add d => (addM 99 d s, none)
+  | .fl f false => (rstep true s (.flushSnap f), some (.fl f true))
+  | .fl f true =>
+    if s.cur.any (·.1 == f) then (rstep true s (.flushDrop f), some (.fl f true))
+    else match snapRest s f with
+      | some [] => (rstep true s (.flushWrite f), none)
+      | some _ => (rstep true s (.flushWrite f), some (.fl f true))
+      | none => (s, none)
+
+/-- order-insensitive normal form (segment documents and flusher tables are sets for everything
+    the stream observes): keeps the number of distinct configurations polynomial -/
+def canon (s : RSt) : RSt :=
+  { s with segments := s.segments.mergeSort (· ≤ ·),
+           snaps := s.snaps.mergeSort (fun a b => a.1 ≤ b.1),
+           cur := s.cur.mergeSort (fun a b => a.1 ≤ b.1) }
+
+/-- every final state reachable by interleaving the regions of the threads (they run
+    concurrently once the held add has released the queue lock): breadth-first over the
+    CONFIGURATIONS (state, remaining threads) with duplicates removed at every level, so the
+    cost is the number of distinct configurations, not the number of interleavings -/
+def explore : Nat → List (RSt × List Thr) → List RSt → List RSt
+  | 0, frontier, done => (done ++ frontier.map (·.1)).eraseDups
+  | fuel + 1, frontier, done =>
+    let fin := frontier.filter (·.2.isEmpty)
+    let live := frontier.filter (!·.2.isEmpty)
+    let done' := (done ++ fin.map (·.1)).eraseDups
+    if live.isEmpty then done' else
+    let next := live.flatMap fun (s, thrs) =>
+      (List.range thrs.length).filterMap fun i =>
+        match thrs[i]? with
+        | none => none
+        | some t =>
+          let (s', t') := thrStep s t
+          some (canon s', match t' with
+            | some t'' => thrs.set i t''
+            | none => thrs.eraseIdx i)
+    explore fuel next.eraseDups done'
+
+def toThr (i : Nat) : Spawned → Thr
+  | .rotate => .rot
+  | .add d => .add d
+  | .flush => .fl (2000 + i) false
+
+def mapC (st : St) (f : RSt → RSt) : St := { st with cands := st.cands.map f }
 
 def op (st : St) (toks : List String) : St × String :=
   let (pre, post) := splitOutcome toks
   match pre with
-  | ["pick", t, d, rot] =>
+  | ["add", t, d] =>
     match t.toNat?, d.toNat? with
-    | some t, some d => (stepAll st [.pick t d (rot == "1")], "ok")
-    | _, _ => (st, "BADOP pick")
-  | ["check", t] =>
-    match t.toNat? with
-    | some t =>
-      let st' := stepAll st [.check t]
-      let modelFrozen := st'.s.failed.length > st.s.failed.length
-      match post with
-      | ["frozen"] =>
-        if modelFrozen then
-          -- trigger: a rotation ran while this add was between pick and check (= the model's
-          -- verdict); the faithful model predicts exactly this error
-          ({ st' with known := st'.known + 1 }, "KNOWN D15-memtable-add-after-unlock add-on-frozen-fails")
-        else (st', "SPECFAIL no_spurious_error add failed with 'memtable is frozen' although no rotation ran since its pick")
-      | ["ok"] => if modelFrozen then (st', "DIFF check model=frozen impl=ok") else (st', "ok")
-      | _ => (st', s!"SPECFAIL no_spurious_error add failed: {post}")
-    | none => (st, "BADOP check")
-  | ["write", t] =>
-    match t.toNat? with
-    | some t =>
-      let st' := stepAll st [.write t]
-      if post == ["ok"] then (st', "ok") else (st', s!"SPECFAIL no_spurious_error add failed: {post}")
-    | none => (st, "BADOP write")
-  | ["rotate"] => (stepAll st [.rotate], "ok")
+    | some t, some d =>
+      let st' := mapC st (addM t d)
+      if post == ["ok"] then (st', "ok")
+      else (st', s!"SPECFAIL no_spurious_error add({d}) failed: {post}")
+    | _, _ => (st, "BADOP add")
+  | ["hold", t, d] =>
+    match t.toNat?, d.toNat? with
+    | some t, some d =>
+      if post == ["held"] then ({ st with holder := some (t, d), spawned := [] }, "ok held=1")
+      else (mapC st (addM t d), s!"SPECFAIL add({d}) did not reach its yield point: {post}")
+    | _, _ => (st, "BADOP hold")
+  | "spawn" :: what =>
+    let sp : Option Spawned := match what with
+      | ["rotate"] => some .rotate
+      | ["flush"] => some .flush
+      | ["add", d] => d.toNat?.map .add
+      | _ => none
+    match sp with
+    | none => (st, "BADOP spawn")
+    | some sp =>
+      let st' := { st with spawned := st.spawned ++ [sp] }
+      if post == ["blocked"] then (st', "ok blocked=1")
+      else (st', s!"SPECFAIL add_never_fails_or_lost {what} completed while an add was between its frozen check and its write: the queue lock does not cover the write (former shape, D15)")
+  | ["release", _] =>
+    match st.holder with
+    | none => (st, "BADOP release without hold")
+    | some (t, d) =>
+      let after := st.cands.map (addM t d)
+      let thrs := (List.range st.spawned.length).zip st.spawned |>.map fun (i, sp) => toThr i sp
+      let cands := explore 200 (after.map fun s => (s, thrs)) []
+      let st' := { st with cands := cands.eraseDups, holder := none, spawned := [] }
+      if post == ["ok"] then (st', s!"ok cands={st'.cands.length}")
+      else (st', s!"SPECFAIL no_spurious_error held add({d}) failed: {post}")
+  | ["spawned", "add", d] =>
+    if post == ["ok"] then (st, "ok") else (st, s!"SPECFAIL no_spurious_error spawned add({d}) failed: {post}")
+  | ["rotate"] => (mapC st fun s => rstep true s .rotate, "ok")
   | ["flush"] =>
-    -- flushMemtables(): every frozen memtable of the queue, oldest first: write, then drop
-    let as := st.s.frozenQ.flatMap fun m => [RAct.flushWrite m, RAct.flushDrop m]
-    let st' := stepAll st as
+    let st' := mapC st flushM
     if post == ["ok"] then (st', "ok") else (st', s!"SPECFAIL flush failed: {post}")
+  | ["fsnap", f] =>
+    match f.toNat? with
+    | some f =>
+      -- the implementation's answer (snapshot empty or not) selects among the candidate states
+      let st1 := mapC st fun s => rstep true s (.flushSnap f)
+      let wantEmpty := post == ["empty"]
+      let keep := st1.cands.filter fun s => (snapRest s f == some []) == wantEmpty
+      let keep' := if wantEmpty then keep.map fun s => rstep true s (.flushWrite f) else keep
+      if post != ["empty"] && post != ["parked"] then (st1, s!"BADOP fsnap {post}")
+      else if keep'.isEmpty then (st1, s!"DIFF fsnap impl={post} no candidate state has such a snapshot")
+      else ({ st1 with cands := keep' }, s!"ok {if wantEmpty then "empty" else "parked"}=1")
+    | none => (st, "BADOP fsnap")
+  | ["fwrite", f] =>
+    match f.toNat? with
+    | some f => (mapC st fun s => rstep true s (.flushWrite f), if post == ["parked"] then "ok" else s!"DIFF fwrite impl={post}")
+    | none => (st, "BADOP fwrite")
+  | ["fdrop", f] =>
+    match f.toNat? with
+    | some f =>
+      let st1 := mapC st fun s => rstep true s (.flushDrop f)
+      let wantDone := post == ["done"]
+      let keep := st1.cands.filter fun s => (snapRest s f == some []) == wantDone
+      let keep' := if wantDone then keep.map fun s => rstep true s (.flushWrite f) else keep
+      if post != ["done"] && post != ["parked"] then (st1, s!"BADOP fdrop {post}")
+      else if keep'.isEmpty then (st1, s!"DIFF fdrop impl={post} no candidate state agrees")
+      else ({ st1 with cands := keep' }, "ok")
+    | none => (st, "BADOP fdrop")
   | ["state"] =>
-    let model := showState st.s
     match post with
     | [impl] =>
-      if impl != model then (st, s!"DIFF state model={model} impl={impl}") else
-      let lost := st.s.acked.filter fun d => !visibleDoc st.s d
-      if lost.isEmpty then
-        (st, s!"ok acked={st.s.acked.length} rotation_free={if noRotationDuringAdd {} st.acts then 1 else 0}")
-      else if noRotationDuringAdd {} st.acts then
-        (st, s!"SPECFAIL rotation_partial lost={showDocs lost} without a rotation concurrent with an add")
-      else ({ st with known := st.known + 1 },
-            s!"KNOWN D15-memtable-add-after-unlock add-after-flush-lost lost={showDocs lost}")
+      let ok := st.cands.filter fun s => showState s == impl
+      match ok with
+      | [] =>
+        -- independent of the model's bookkeeping: are the acknowledged documents accounted for at all?
+        let parts := impl.splitOn "|"
+        let idsIn (p : String) : Nat := match (p.splitOn "=") with
+          | [_, v] => ((v.splitOn ";").map fun m => if m == "-" then 0 else (m.splitOn ",").length).foldl (· + ·) 0
+          | _ => 0
+        let held := match parts with
+          | [q, m, sg] => idsIn q + idsIn m + (match sg.splitOn "=" with | [_, n] => n.toNat?.getD 0 | _ => 0)
+          | _ => 0
+        let acked := (st.cands.head?.map (·.acked.length)).getD 0
+        if held < acked then
+          (st, s!"SPECFAIL add_never_fails_or_lost {acked} documents acknowledged, only {held} in queue memtables and segments: impl={impl}")
+        else (st, s!"DIFF state model={(st.cands.map showState)} impl={impl}")
+      | s :: _ =>
+        let lost := s.acked.filter fun d => !visibleDoc s d
+        if lost.isEmpty && s.failed.isEmpty then
+          ({ st with cands := ok }, s!"ok acked={s.acked.length} cands={st.cands.length} dupseg={if s.segments.length > s.segments.eraseDups.length then 1 else 0}")
+        else ({ st with cands := ok }, s!"SPECFAIL add_never_fails_or_lost lost={showDocs lost} failed={showDocs s.failed}")
     | _ => (st, "BADOP state")
   | _ => (st, "BADOP unknown")
 
